@@ -45,11 +45,33 @@ def unx(s):
 def parse_strace(path, datadir):
     """-> list of events: ('write', file, off, bytes) ('trunc', file, len) ('sync', file) ('unlink', file) ('ack', n)"""
     allfds, allpos, ev = {}, {}, []
-    for line in open(path, errors="replace"):
+    # with several threads strace splits a call that is pre-empted into `... <unfinished ...>` and
+    # `<... call resumed> ...`: join the two halves (per thread) before reading the line; the call
+    # takes its place in the event order when it completes
+    unfinished = {}
+    group = {}
+    def joined(fh):
+        for line in fh:
+            m1 = re.match(r"^(\d+)\s+(.*) <unfinished \.\.\.>\s*$", line)
+            if m1:
+                unfinished[m1.group(1)] = m1.group(2)
+                continue
+            m2 = re.match(r"^(\d+)\s+<\.\.\. \w+ resumed>(.*)$", line)
+            if m2 and m2.group(1) in unfinished:
+                yield f"{m2.group(1)} {unfinished.pop(m2.group(1))}{m2.group(2)}\n"
+                continue
+            yield line
+    for line in joined(open(path, errors="replace")):
         m = re.match(r"^(\d+)\s+(\w+)\((.*)\)\s+=\s+(-?\d+)", line)
         if not m:
             continue
         pid, call, args, ret = m.group(1), m.group(2), m.group(3), int(m.group(4))
+        if call in ("clone", "clone3") and ret > 0:
+            # threads (CLONE_FILES) share the descriptor table of their creator; a forked process starts
+            # a table of its own (the server is exec'ed with its descriptors closed)
+            group[str(ret)] = group.get(pid, pid) if "CLONE_FILES" in args else str(ret)
+            continue
+        pid = group.get(pid, pid)
         fds, pos = allfds.setdefault(pid, {}), allpos.setdefault(pid, {})
         if call == "openat" and ret >= 0:
             pm = re.search(r'"((?:\\x[0-9a-f]{2})*)"', args)
@@ -237,7 +259,7 @@ def run_c04(tier, seed, replay=None):
             text = "\n".join(sym) + "\n"
             datadir = os.path.join(hd, "data")
             p = subprocess.run(["strace", "-f", "-xx", "-s", "400000000", "-e",
-                                "trace=openat,close,pwrite64,write,fsync,fdatasync,ftruncate,unlink,unlinkat",
+                                "trace=openat,close,pwrite64,write,fsync,fdatasync,ftruncate,unlink,unlinkat,clone,clone3",
                                 "-o", os.path.join(hd, "strace.log"), binp] + (["bin"] if via_http else ["lib", "sqlite"]),
                                input=text, capture_output=True, text=True,
                                env=dict(ENV, TSS_KEEP_DIR=datadir, VERIF_SEED=str(seed + hi), TSS_SERVER_BIN=sbin), timeout=1200)
